@@ -23,6 +23,9 @@ TSys == Ev.op = "sys" /\
           [] Ev.call = "rename"     -> Rename /\ UNCHANGED got
           [] Ev.call = "open_trunc" -> OpenTrunc /\ got' = 0
           [] Ev.call = "write_target" -> Write /\ wrote = "target" /\ got' = got + Ev.bytes /\ target' = Content(got + Ev.bytes, Ev.total)
+          \* not actions of the specification: a temporary file opened without insisting on a new file or emptying an existing
+          \* one ("open_tmp_keep": it would inherit what an interrupted run left there), the live file moved out of its place
+          \* ("rename_away")
           [] OTHER -> FALSE
 TEnd == Ev.op = "end" /\ pc \in {"done", "start"} /\ UNCHANGED <<avars, got>>      \* "start": the command had nothing to write
 TFault == Ev.op = "fault"
